@@ -11,7 +11,8 @@ open XmppModel.Component
 
 def parseItem (s : String) : Option Item :=
   if s == "P" then some .pi else if s == "S1" then some (.hdr true) else if s == "S0" then some (.hdr false)
-  else if s == "Sx" then some .hdrBad else if s == "K" then some .ack else if s == "X" then some .serr
+  else if s == "Sx" then some .hdrBad else if s == "K" || s == "K2" then some .ack else if s == "Ko" then some .ackOpen
+  else if s == "Kc" then some .ackClose else if s == "X" then some .serr
   else if s == "O" then some .other else if s == "T" then some .text else none
 
 def showEv : Ev → String
@@ -66,14 +67,16 @@ end Comp
 /-- `hs <name> <kind> <n>`: a handshake with the library's own features under one fault
 (`cut` of the peer's stream after `n` bytes, failing `rd`/`wr` number `n`, `cancel` before the
 peer's step `n`; over a real net.Pipe: `pwr` cancellation while blocked in write `n`, `prd` while
-blocked in the read before the peer's step `n`); the prediction is `C04_fail_closed`: any fault
+blocked in the read before the peer's step `n`; `rdb`: the peer's bytes arrive one per read and read
+`n` fails; names ending in `+l`: the peer spells its empty elements `<x></x>`); the prediction is `C04_fail_closed`: any fault
 ends in failure, the fault-free run (`clean`, `pclean`) completes.
 `comp <st0> <script> <fault>`: the component handshake model (`Model/Component.lean`). -/
 def handle (args : List String) : Option String :=
   match args with
   | ["hs", _name, kind, _n] =>
-    if kind == "clean" || kind == "pclean" then some "done"
+    if kind == "clean" || kind == "pclean" || kind == "cleanb" then some "done"
     else if kind == "cut" || kind == "rd" || kind == "wr" || kind == "cancel" || kind == "pwr" || kind == "prd"
+        || kind == "rdb"
       then some "fail"
     else none
   | ["comp", st0, script, fault] => Comp.handle st0 script fault
